@@ -89,6 +89,23 @@ def strata(tier):
                       [{"p": "prim", "v": "tw"}, {"p": "mol"}, {"p": "mol"}, {"p": "mol"}], [{"p": "mol"}, {"p": "mol"}, {"p": "mol"}],
                       [{"p": "prim", "v": "tw"}, {"p": "map"}, {"p": "list"}]):
             yield {"rules": [{"path": PC.mkpath(parts), "cond": {"c": "null"}, "cast": cast}], "doc": TWINS, "cls": "twin-keys"}
+    # casts together with data-path arguments: the argument is what the path selects in the COPY the condition is judged on
+    for j, (doc, rpath, arg) in enumerate([
+        ({"a": "3", "b": "3", "c": "x", "limit": "5"}, [{"p": "map"}], [{"p": "prim", "v": "a"}]),
+        ({"l": ["7", "7", "8"], "k": 1}, [{"p": "prim", "v": "l"}, {"p": "list"}], [{"p": "prim", "v": "l"}, {"p": "prim", "v": 0}]),
+        ({"m": {"p": "true", "q": "TRUE", "r": "no"}}, [{"p": "prim", "v": "m"}, {"p": "mol"}], [{"p": "prim", "v": "m"}, {"p": "prim", "v": "p"}]),
+        ({"a": "12", "b": {"c": "12"}, "limit": "12"}, [{"p": "prim", "v": "a"}], [{"p": "prim", "v": "limit"}]),
+    ]):
+        for cast in ([["str", "int"]], [["str", "bool"]]):
+            for fn in ("equal_to", "not_equal_to", "in_", "less_than_or_equal_to"):
+                P = {"$path": PC.mkpath(arg)}
+                cond = PC.L("value", fn, [P, 0] if fn == "in_" else P)
+                R = {"path": PC.mkpath(rpath), "cond": cond, "cast": cast}
+                yield {"rules": [R], "doc": doc, "cls": "cast+path-argument"}
+                # the referenced node is cast by an EARLIER (shorter-path) rule of the schema
+                E = {"path": PC.mkpath([]), "cond": {"c": "null"}, "cast": None}
+                C0 = {"path": PC.mkpath(arg[:1]), "cond": {"c": "null"}, "cast": cast}
+                yield {"rules": [R, C0, E], "doc": doc, "cls": "cast+path-argument"}
     # the later rule's path has a part condition that looks at nodes an earlier rule casts (selection is in the document)
     recs = [{"kind": "1", "n": "7"}, {"kind": "2", "n": "8"}, {"kind": "x", "n": "9"}, {"kind": 1, "n": "10"}]
     is_int = PC.L("value", "is_instance", {"$type": "int"})
@@ -303,6 +320,37 @@ def run(case, ctx):
             ctx.violate(f"C15/caller-changed/rule/{kcls}", f"Rule.test changed the caller's document at {first_diff(doc, d2)}")
         if shared_containers(d2, got):
             ctx.violate(f"C15/not-private/rule/{kcls}", "RuleTest.data shares containers with the caller's document")
+    # history: the caller hands ONE wrapped document to several tests / validations; every result is the document with
+    # exactly that call's replacements (nothing carried over from the calls before it on the same wrapper)
+    Dw = valida.Data(M.deep_copy(doc))
+    swapped = [dict(r, cast=([["str", "bool"]] if r["cast"][0][1] == "int" else [["str", "int"]])) if r.get("cast") else r for r in rules]
+    seq = [("rule", [r]) for r in rules[:2] if r.get("cast")] + [("schema", swapped), ("schema", rules)]
+    kept = []
+    for what, rl in seq:
+        em = M.schema_model(rl, doc)
+        if em is M.SKIP:
+            continue
+        if what == "rule":
+            ok, res = call(lambda: build.rule_obj(rl[0]).test(Dw))
+            got = res.data.get_original() if ok else None
+        else:
+            ok, res = call(lambda: build.schema_obj(rl).validate(Dw))
+            got = res.cast_data if ok else None
+        ctx.count("history:shared-Data-wrapper-calls")
+        if not ok:
+            ctx.violate(f"C15/{res.key()}/shared-wrapper", f"{what} on a shared Data wrapper raised {res!r}")
+            break
+        if canon(got) != canon(em["cast_data"]):
+            ctx.violate(f"C15/cast-data/shared-wrapper/{kcls}", f"{what} call #{len(kept) + 1} on one shared Data wrapper: cast data differs from the "
+                        f"model of that call alone at {first_diff(em['cast_data'], got)}\n rules={rl}\n doc={doc!r}")
+            break
+        for j, (g0, c0) in enumerate(kept):
+            if canon(g0) != c0:
+                ctx.violate(f"C15/not-private/shared-wrapper/{kcls}", f"the cast data returned by call #{j + 1} changed when a later call ran on the same Data wrapper")
+                break
+        kept.append((got, canon(got)))
+    if canon(Dw.get_original()) != canon(doc):
+        ctx.violate(f"C15/caller-changed/shared-wrapper/{kcls}", "the wrapped document itself was changed")
     for name, detail in mon.CONTRACTS.take():
         ctx.violate(f"C15/contract:{name}", detail)
     # bookkeeping
